@@ -11,4 +11,4 @@
     C10_facts_pinned compares the facts regenerated from the source with this value: applying the
     diff without flipping the switch (or the reverse) breaks it. *)
 From SimRes Require Import ResModel.
-Definition C10_expected_prod : prod_kind := PKFirst.
+Definition C10_expected_prod : prod_kind := PKRows.
